@@ -102,9 +102,11 @@ pub fn for_each_call(cfg: &RunCfg, label: &str, plan: &EncPlan, f: &mut dyn FnMu
         // E: list-size sweeps
         match form {
             Form::RoutingUpdate => {
-                for n in 0..=9usize {
+                // 0-9 entries, then counts at which a length kept in a narrower integer wraps
+                // (4 bytes per entry: 64 entries = 256 bytes, 16384 entries = 65536 bytes)
+                for n in (0..=9usize).chain([15, 16, 17, 31, 32, 33, 63, 64, 65, 71, 72, 127, 128, 129, 255, 256, 257, 16384, 16385, 16391]) {
                     for via in 0..2u8 {
-                        for _ in 0..4 {
+                        for _ in 0..(if n > 9 { 1 } else { 4 }) {
                             item!({
                                 let mut c = Call::random(form, &mut rng, plan.addr7, 32);
                                 c.p[0] = via;
@@ -116,7 +118,8 @@ pub fn for_each_call(cfg: &RunCfg, label: &str, plan: &EncPlan, f: &mut dyn FnMu
                 }
             }
             Form::RGetTypes => {
-                for n in 0..=33usize {
+                // 0-33 types, then list lengths at which a count kept in a u8 / u16 wraps back into 0..=30
+                for n in (0..=33usize).chain([63, 64, 65, 127, 128, 129, 254, 255, 256, 257, 258, 270, 285, 286, 287, 288, 300, 511, 512, 513, 542, 543, 65535, 65536, 65537, 65566, 65567]) {
                     for cc in 0..6u8 {
                         item!({
                             let mut c = Call::random(form, &mut rng, plan.addr7, 32);
